@@ -296,6 +296,7 @@ class Spec:
         # only this trigger: a pattern on fvp(s, i + 1) makes E-matching loop (i + 1 matches every integer term)
         ax.append(z3.ForAll([s, i], z3.Implies(i >= 0, fvp(s, i + 1) == z3.SetUnion(fvp(s, i), fv(at(s, i)))), patterns=[z3.MultiPattern(fvp(s, i), at(s, i))]))
         ax.append(z3.ForAll([s], fvs(s) == fvp(s, ln(s)), patterns=[fvs(s)]))
+        ax.append(z3.ForAll([s, i], z3.Implies(z3.And(0 <= i, i < ln(s)), z3.IsSubset(fv(at(s, i)), fvp(s, ln(s)))), patterns=[z3.MultiPattern(fvp(s, ln(s)), at(s, i))]))
         ax.append(z3.ForAll([s, i], z3.Implies(z3.And(0 <= i, i < ln(s)), z3.IsSubset(fv(at(s, i)), fvs(s))), patterns=[z3.MultiPattern(fvs(s), at(s, i))]))
         return ax
 
